@@ -8,6 +8,19 @@ def knownSite (f : String) : Bool :=
   Gen.C40.ops.any fun o => Gen.C40.fnNames.getD o.fn "" == f &&
     (o.role != .closeDone && o.role != .other)
 
+/-- Finding class `hlsMuxerLockCycle` on the watchdog's report (one entry per leftover goroutine: its
+innermost frames, innermost first): the three goroutines of the cycle are there — a starting muxer
+inside `pathManager.AddReader`, `pathManager.run` inside `hls.Server.PathReady`, the HLS loop inside a
+`muxer.api…` query — no muxer is stuck in its own clean-up (`muxer.run` taking the mutex: a different
+defect), and the regenerated lock table still shows `muxer.runInner` holding the mutex across the
+request. -/
+def knownHLSCycle (chains : List String) : Bool :=
+  chains.any (·.startsWith "pathManager.AddReader<hls.muxer.runInner") &&
+  chains.any (·.startsWith "hls.Server.PathReady<pathManager.doSetPathReady") &&
+  chains.any (fun c => c.startsWith "hls.muxer.api" && (c.splitOn "<").contains "hls.Server.run") &&
+  !chains.any (fun c => c == "hls.muxer.run" || c.startsWith "hls.muxer.run<") &&
+  (lockAcrossRequest Gen.C40.lockFns).contains (Gen.C40.LF_hls_muxer_runInner, Gen.C40.MU_hls_muxer_mutex)
+
 /-- One op = one stress run of the real loops.  The model's answer is `done` (the theorems say every
 operation, including shutdown, completes) followed by the sampled blocking sites that the extracted
 table knows: a goroutine parked at a channel operation of internal/core that is NOT in the table
@@ -15,10 +28,12 @@ makes model and implementation differ (the model's waits do not cover the code).
 exactly when the watchdog fired. -/
 def step (_ : Unit) (op impl : String) : Unit × DrvOut :=
   match words op with
-  | "stress" :: _ =>
+  | "stress" :: _ | "hls" :: _ =>
     if impl == "skipped" then ((), { model := "-" })
     else if impl.startsWith "hang" then
-      ((), { model := "done", spec := "FAIL operations did not complete; goroutines blocked in " ++ (impl.drop 5).toString })
+      let chains := (impl.drop 5).toString.splitOn ","
+      let v := if knownHLSCycle chains then "KNOWN hlsMuxerLockCycle " else "FAIL "
+      ((), { model := "done", spec := v ++ "operations did not complete; goroutines blocked in " ++ (impl.drop 5).toString })
     else
       match words impl with
       | ["done", s] =>
